@@ -15,6 +15,7 @@ from vlib import Machinery, log
 LEX = {
     "n_x": b"x", "n_VAR": b"VAR_A", "n_acc": "été".encode(), "n_my": b"mytask", "n_long": b"build_all", "n_T": b"T", "n_us": b"_priv",
     "n_tasks": b"tasks", "n_taskdir": b"task_dir", "n_heb": "task\u05d0".encode(), "n_cyr": "\u0441\u0431\u043e\u0440\u043a\u0430".encode(), "n_cjk": "\u4efb\u52a1".encode(),
+    "n_heb2": "\u05e9\u05dc\u05d5\u05dd".encode(), "n_grk": "\u03b1\u03b2".encode(),
     "s_ago": b"a.go", "s_empty": b"", "s_glob": b"**/*.go", "s_uni": "hé".encode(), "s_hash": b"a#b", "s_sp": b"a b", "s_brace": b"a{b",
     "s_dir": b"./bin/main", "s_dot": b".", "s_tpl": b"{{.X}}", "s_bs": b"C:\\tools\\x", "s_tab": b"a\tb", "s_pct": b"80%", "s_ctl": b"a\x01b", "s_esc": b"C:\\temp\\new", "s_dbl": b"a\\\\b", "s_hex": b"\\x41",
     "c_plain": b" hello", "c_empty": b"", "c_ws": b"  ", "c_kw": b" task t() {", "c_nosp": b"nospace", "c_uni": " café".encode(), "c_hash": b" a # b",
@@ -34,10 +35,10 @@ VALS = {"eol": ["lf", "crlf"], "indent": ["none", "sp2", "tab"], "blank": [0, 1,
         "taskSp": ["sp1", "sp2", "tab"], "nameLp": ["none", "sp1"], "lpIn": ["none", "sp1"], "commaL": ["none", "sp1"], "commaR": ["none", "sp1", "tab"],
         "trail": [False, True], "rpIn": ["none", "sp1"], "arrowL": ["none", "sp1"], "arrowR": ["none", "sp1"], "parenSingle": [False, True],
         "lbL": ["none", "sp1", "tab"], "body": ["multi", "one"], "cmdIndent": ["none", "sp4", "tab"], "cmdBlank": [0, 1], "rbIndent": ["none", "sp2"],
-        "lead": ["none", "lf", "sp2lf"], "finalNL": [0, 1, 2]}
+        "lead": ["none", "lf", "sp2lf"], "finalNL": [0, 1, 2], "listBreak": ["none", "lines"]}
 DEFAULT = {"eol": "lf", "indent": "none", "blank": 0, "declL": "sp1", "declR": "sp1", "taskSp": "sp1", "nameLp": "none", "lpIn": "none", "commaL": "none",
            "commaR": "sp1", "trail": False, "rpIn": "none", "arrowL": "sp1", "arrowR": "sp1", "parenSingle": False, "lbL": "sp1", "body": "multi",
-           "cmdIndent": "sp4", "cmdBlank": 0, "rbIndent": "none", "lead": "none", "finalNL": 1}
+           "cmdIndent": "sp4", "cmdBlank": 0, "rbIndent": "none", "lead": "none", "finalNL": 1, "listBreak": "none"}
 
 
 def S(i):
@@ -330,33 +331,87 @@ ALPHA14 = ["sp", "nl", "cr", "t", "a", "s", "k", "hash", "q", "lp", "rp", "lb", 
 ALPHA19 = ["sp", "nl", "cr", "t", "a", "s", "k", "x", "hash", "q", "lp", "rp", "lb", "rb", "col", "eq", "min", "gt", "com"]
 
 
+# keyword-rich prefixes: the exhaustive exploration continues from each of them (MaxLen = len(prefix) + extra)
+PREFIXES = [
+    "t a s k",                                   # keyword boundary: task<x>
+    "t a s k sp a",
+    "t a s k sp a lp",                           # argument list
+    "t a s k sp a lp q a q",
+    "t a s k sp a lp a com",
+    "t a s k sp a lp rp",                        # after the head
+    "t a s k sp a lp rp sp min gt",              # outputs
+    "t a s k sp a lp rp sp min gt sp lp",
+    "t a s k sp a lp rp sp min gt sp lp q a q",
+    "t a s k sp a lp rp sp min gt sp q a q",
+    "t a s k sp a lp rp sp lb",                  # body
+    "t a s k sp a lp rp sp lb nl a",
+    "t a s k sp a lp rp sp lb nl a cr nl",
+    "t a s k sp a lp rp sp lb sp a sp",
+    "t a s k sp a lp rp sp lb a lb lb",          # interpolation inside a command
+    "t a s k sp a lp rp sp lb rb",
+    "t a s k sp a lp rp sp lb rb nl",
+    "hash a nl t a s k sp a lp",                 # docstring
+    "hash nl t a s k",
+    "a sp col eq",                               # declaration
+    "a sp col eq sp q",
+    "a sp col eq sp a lp",
+    "a sp col eq sp a lp q a q",
+    "a sp col eq sp q a q nl",
+    "t a s k sp col eq",                         # a variable named task
+    "a nl t a s k",
+]
+
+
+def lexsm_run(ctx, alpha, maxlen, prefix):
+    # TLC configuration files have no tuple syntax: the prefix is a definition in a generated wrapper module
+    mod = ("---- MODULE MCLex ----\nEXTENDS ParseSM\nPrefixDef == <<%s>>\n====\n" % ", ".join('"%s"' % c for c in prefix)).encode()
+    cfg = ("INIT Init\nNEXT Next\nCONSTANTS Alphabet = {%s} MaxLen = %d Variant = \"fixed\" Prefix <- PrefixDef\n"
+           "INVARIANTS Tiles EOFAtEnd ErrLineOK PosSane NoHang NeverPastEnd Located EmitLP\nPROPERTY Progress\nCHECK_DEADLOCK FALSE\n"
+           % (", ".join('"%s"' % a for a in alpha), maxlen))
+    r = vlib.tlc(ctx, "MCLex", cfg, files=[("MCLex.tla", mod)], workers=12 if not prefix else 2, timeout=3000,
+                 heap="12g" if not prefix else "3g", dump_trace=False)
+    if r.error or r.violated:
+        raise Machinery("LexSM/ParseSM model check failed (prefix %r): %s %s" % (" ".join(prefix), r.violated, (r.error or "")[:1500]))
+    items = []
+    for l in r.out.splitlines():
+        if not l.startswith('<<"LP"'):
+            continue
+        j = l[l.index(',') + 1:].strip()
+        if j.endswith(">>"):
+            j = j[:-2].strip()
+        sc = json.loads(json.loads(j))
+        b = b"".join(CLS[c] for c in sc["inp"])
+        toks = [{"ty": t["ty"], "pos": t["s"], "len": t["e"] - t["s"], "line": t["ln"]} for t in sc["toks"]]
+        items.append((b, None, {"toks": toks, "pp": {"k": sc["k"], "line": sc["line"]}}, "lexsm" if not prefix else "lexsm-deep"))
+    return items, r.distinct, r.generated
+
+
 def lexsm(ctx, tier):
     key = ("lexsm", tier)
     if key in _cache:
         return _cache[key]
-    runs = [(ALPHA14, 4)] if tier == "quick" else [(list(CLS), 4)]
+    from concurrent.futures import ThreadPoolExecutor
+    base_alpha = ALPHA14 if tier == "quick" else list(CLS)
+    extra = 2 if tier == "quick" else 3
+    jobs = [(base_alpha, 4, [])] + [(list(CLS), len(p.split()) + extra, p.split()) for p in PREFIXES]
     items, states, gen = [], 0, 0
-    for alpha, maxlen in runs:
-        cfg = ("INIT Init\nNEXT Next\nCONSTANTS Alphabet = {%s} MaxLen = %d Variant = \"fixed\"\n"
-               "INVARIANTS Tiles EOFAtEnd ErrLineOK PosSane NoHang NeverPastEnd Located EmitLP\nPROPERTY Progress\nCHECK_DEADLOCK FALSE\n"
-               % (", ".join('"%s"' % a for a in alpha), maxlen))
-        r = vlib.tlc(ctx, "ParseSM", cfg, workers=12, timeout=3000, heap="12g", dump_trace=False)
-        if r.error or r.violated:
-            raise Machinery("LexSM/ParseSM model check failed: %s %s" % (r.violated, (r.error or "")[:1500]))
-        states += r.distinct
-        gen += r.generated
-        for l in r.out.splitlines():
-            if not l.startswith('<<"LP"'):
-                continue
-            j = l[l.index(',') + 1:].strip()
-            if j.endswith(">>"):
-                j = j[:-2].strip()
-            sc = json.loads(json.loads(j))
-            b = b"".join(CLS[c] for c in sc["inp"])
-            toks = [{"ty": t["ty"], "pos": t["s"], "len": t["e"] - t["s"], "line": t["ln"]} for t in sc["toks"]]
-            items.append((b, None, {"toks": toks, "pp": {"k": sc["k"], "line": sc["line"]}}, "lexsm"))
-    # vacuity: the pinned lexer/parser model must violate Located (the unlocated output-list error needs 5+ tokens: use the deep probe only in thorough)
-    log("LexSM/ParseSM: %d distinct states, %d finished scans exported with predicted tokens and parse outcome" % (states, len(items)))
+    base_items, st, g = lexsm_run(ctx, *jobs[0])
+    items += base_items
+    states += st
+    gen += g
+    seen = {b for b, _, _, _ in items}
+    ndeep = 0
+    with ThreadPoolExecutor(max_workers=6) as ex:
+        for its, st, g in ex.map(lambda j: lexsm_run(ctx, *j), jobs[1:]):
+            states += st
+            gen += g
+            for it in its:
+                if it[0] not in seen:
+                    seen.add(it[0])
+                    items.append(it)
+                    ndeep += 1
+    log("LexSM/ParseSM: %d distinct states, %d finished scans exported with predicted tokens and parse outcome (%d from %d keyword-rich prefixes + %d free bytes)"
+        % (states, len(items), ndeep, len(PREFIXES), extra))
     _cache[key] = (items, states, gen)
     return _cache[key]
 
